@@ -32,6 +32,7 @@ type Ctx struct {
 	cg            *callgraph.Graph
 	cha           *callgraph.Graph
 	fnInfo        map[*ssa.Function]*fnInfo
+	fileShape     *fileReaderShape
 	callersOf     map[*ssa.Function][]ssa.CallInstruction
 	allFuncs      map[*ssa.Function]bool
 	r             *roles
